@@ -53,6 +53,22 @@ type tracer struct {
 	scribble bool
 	errSeen  error
 	pcBad    string // first snapshot whose program counter names no instruction of its own Scripts
+	bytes    int    // volume of the copies held so far
+	over     bool   // the volume budget was exceeded: later events are counted, not copied (the case is discarded)
+}
+
+// traceBudget bounds what one tracer holds (every event copies both stacks: quadratic in the
+// stack depth for push-heavy programs).
+const traceBudget = 192 << 20
+
+func volume(s *interpreter.State) int {
+	n := 64 + 24*(len(s.DataStack)+len(s.AltStack)+len(s.ElseStack)) + 8*len(s.CondStack)
+	for _, st := range [][][]byte{s.DataStack, s.AltStack, s.ElseStack} {
+		for _, b := range st {
+			n += len(b)
+		}
+	}
+	return n
 }
 
 func cpAll(s [][]byte) [][]byte {
@@ -64,6 +80,14 @@ func cpAll(s [][]byte) [][]byte {
 }
 
 func (t *tracer) on(kind byte, s *interpreter.State) {
+	if t.over {
+		return
+	}
+	if t.bytes += 2 * volume(s); t.bytes > traceBudget {
+		t.over = true
+		t.events, t.kept = nil, nil
+		return
+	}
 	t.events = append(t.events, event{kind: kind, stack: cpAll(s.DataStack), alt: cpAll(s.AltStack), cond: append([]int{}, s.CondStack...), els: cpAll(s.ElseStack), sidx: s.ScriptIdx, oidx: s.OpcodeIdx})
 	// before a step and around an opcode the snapshot's program counter names the instruction
 	// concerned: it must exist in the snapshot's own script list, and State.Opcode() must return it
@@ -336,6 +360,14 @@ func check(ctx *pbt.Ctx, c Case) error {
 		}
 	}
 	id := fmt.Sprintf("unlock=%x lock=%x flags=%#x", []byte(c.Unlock), []byte(c.Lock), c.Flags)
+	if rec.over || scr.over {
+		// verdicts are still compared; the snapshot relations need the complete record
+		if !sameErr(plain.Err, withRec.Err) || !sameErr(plain.Err, withScr.Err) || !sameErr(plain.Err, withDD.Err) {
+			return fmt.Errorf("a debugger changed the result: none=%v recording=%v scribbling=%v debug.NewDebugger=%v; %s", plain.Err, withRec.Err, withScr.Err, withDD.Err, id)
+		}
+		ctx.Discard("snapshot_volume_over_budget")
+		return nil
+	}
 	// (i) same verdict and error
 	if !sameErr(plain.Err, withRec.Err) {
 		return fmt.Errorf("recording debugger changed the result: none=%v recording=%v; %s", plain.Err, withRec.Err, id)
